@@ -32,6 +32,8 @@ def rules_xml(sc):
                 x += f'<stop_sequence>{p["stopseq"]}</stop_sequence>'
             if p.get('strategy'):
                 x += f'<starting_failure_strategy>{p["strategy"]}</starting_failure_strategy>'
+            if p.get('rfs'):
+                x += f'<running_failure_strategy>{p["rfs"]}</running_failure_strategy>'
             x += (f'<required>{"true" if p.get("required") else "false"}</required>'
                   f'<wait_exit>{"true" if p.get("wait_exit") else "false"}</wait_exit></program>')
         x += '</programs></application>'
@@ -263,6 +265,11 @@ class Scenario:
                 self.step_rpc(pre_start[0], 'startProcess', pre_start[1], False, ns='supervisor')
             for _ in range(sc.get('settle_rounds', 3)):
                 self.round()
+            for call in sc.get('pre_calls', []):
+                # user requests issued before the trigger: [instance, method, args, rounds to wait afterwards]
+                self.step_rpc(call[0], call[1], *call[2])
+                for _ in range(call[3]):
+                    self.round()
             if sc.get('busy_start'):
                 # a start sequence is in progress on the Master when the trigger arrives
                 self.step_rpc(sc['busy_start'][0], 'start_application', 'CONFIG', sc['busy_start'][1], False)
